@@ -109,6 +109,24 @@ Proof.
   eapply existsb_nth; eauto.
 Qed.
 
+(** both halves together with containment: whenever the block has been left after a child of the open scope failed, it
+    was left at the time of that failure, every child is finished (the remaining ones were aborted within that time
+    step: time did not advance in between), no child can take another step, and the failure is part of the outcome *)
+Theorem first_failure_aborts_all_thm : forall k s i s1 ls s2 c o, reachable k s -> interruptable s = true ->
+  step s (ChildFail i) = Some s1 -> run s1 ls = Some s2 -> ph s2 = Exited c o ->
+  exited_at s2 = Some (now s) /\ o = outcome_of c true /\
+  Forall (fun x => isdone x = true) (kids s2) /\
+  (forall j, step s2 (ChildStart j) = None /\ step s2 (ChildStep j) = None).
+Proof.
+  intros k s i s1 ls s2 c o R I H1 H2 P.
+  assert (R2 : reachable k s2) by (eapply reachable_run; [eapply r_step; eauto|exact H2]).
+  destruct (child_failure_prompt_thm _ _ _ _ _ _ R I H1 H2) as [(E&_)|(c'&o'&P'&X)].
+  - rewrite P in E. discriminate.
+  - split; [exact X|]. split; [exact (child_failure_reported_thm _ _ _ _ _ _ _ _ R H1 H2 P)|].
+    destruct (contained_thm _ _ _ _ R2 P) as (D&N&_). split; [exact D|].
+    intros j. destruct (N j) as (A&B&_). split; assumption.
+Qed.
+
 (** non-vacuity: a child fails at time 2 while the body is suspended; a second child runs on, the owner is
     cancelled, closes the second child and leaves at time 2 with the children's failure *)
 Example prompt_example :
